@@ -220,11 +220,11 @@ def run_case(case, n_draws=3000):
 
 
 def shards(tier):
-    return [{"i": i, "n": 5 if tier == "quick" else 120} for i in range(16)]
+    return [{"i": i, "n": 4 if tier == "quick" else 120} for i in range(16)]
 
 
 def run_shard(spec, seed, tier, acc):
-    nd = 2000 if tier == "quick" else 12000
+    nd = 1500 if tier == "quick" else 12000
 
     def body(case, acc):
         vios, info = run_case(case, nd)
